@@ -123,12 +123,12 @@ theorem ref_symlink (h : NRoots bk hk dd) {k : Key} (hk' : PKey k) (hh : hk <+: 
   apply refused_of_tr (by intro n e; cases e)
   obtain ⟨b, hb⟩ := isHidden_abs_total h (eff_abs hk' o)
   cases b with
-  | true => exact (Props.C06.symlink_refused (nhs hk) o (kp k)).1 hb
-  | false => exact (Props.C06.symlink_refused (nhs hk) o (kp k)).2 hb (isHidden_hid h hk' hh)
+  | true => exact (Props.C06.symlink_refused (nhs hk) o (kp k)).1 (by rw [clean_kp hk']; exact hb)
+  | false => exact (Props.C06.symlink_refused (nhs hk) o (kp k)).2 (by rw [clean_kp hk']; exact hb) (isHidden_hid h hk' hh)
 
 /-- `Symlink(o, n)` whose lexical effective target is at or below the location: refused -/
 theorem ref_symlink_target (o n : Path)
-    (he : isHidden (if isAbs o then o else join (dir n) o) (nhs hk) = .ok true) :
+    (he : isHidden (if isAbs o then o else join (dir (clean n)) o) (nhs hk) = .ok true) :
     Refused bk hk .base (.symlink o n) .hiddenPerm :=
   refused_of_tr (by intro n e; cases e) ((Props.C06.symlink_refused (nhs hk) o n).1 he)
 
@@ -376,7 +376,7 @@ theorem sat_symlink_target_hid (h : NRoots bk hk dd) {v0 : View} {o n : Path} {k
   | ok rn =>
     have := (hres1 rn rfl).1; subst this
     simp only
-    apply (sat_refused_unit (ref_symlink_target o (kp kn) he) (w := w1)).mono
+    apply (sat_refused_unit (ref_symlink_target o (kp kn) (by rw [clean_kp hkn]; exact he)) (w := w1)).mono
     intro w2 r2 ⟨hs2, hr2⟩
     have hadv2 := hadv1.trans (N.Adv.of_same hadv1.inv hs2)
     rcases hr2 with rfl | ⟨_, rfl⟩ <;> exact ⟨⟨_, rfl⟩, hadv2⟩
